@@ -308,6 +308,6 @@ func checkC05(w *core.W) {
 
 var C05 = core.Check{
 	ID: "C05", Level: "exploration", Fn: checkC05, Rounds: func(string) int { return 2 },
-	Rule: "operands = every state of the reachable-representation space (generation 0: every construction path of every set of <=2 members over the member alphabet with forced key collisions, offsets, holes; plus one generation of operator results). For every state: x(k) and x(k)?:d for every key present and 10 fixed arguments (absent, non-integer, wrong kind); 3 >> and 2 >>> transformers; n\\x for n in -2..2 and 0.5; a ++ b for every ordered pair of states. The model is the set of (@:k, X:v) pairs: call = the unique value paired with k, error for none / several, fallback exactly for none; >> rewrites each value keeping keys; ++ = left union right shifted by count(left); n\\ shifts every key. non-trivial = keyed operand with at least one matching pair / non-empty operands",
+	Rule:   "operands = every state of the reachable-representation space (generation 0: every construction path of every set of <=2 members over the member alphabet with forced key collisions, offsets, holes; plus one generation of operator results). For every state: x(k) and x(k)?:d for every key present and 10 fixed arguments (absent, non-integer, wrong kind); 3 >> and 2 >>> transformers; n\\x for n in -2..2 and 0.5; a ++ b for every ordered pair of states. The model is the set of (@:k, X:v) pairs: call = the unique value paired with k, error for none / several, fallback exactly for none; >> rewrites each value keeping keys; ++ = left union right shifted by count(left); n\\ shifts every key. non-trivial = keyed operand with at least one matching pair / non-empty operands",
 	Assume: []string{"reference model of keyed collections as sets of (@,x) pairs", "states that are not sets of pairs are only checked for crashes (the property speaks about keyed collections)", "a transformer result that is not representable as a char/byte may be either an error or a generic tuple"},
 }
